@@ -131,6 +131,9 @@ impl Server for LocalServer {
             ));
         }
 
+        #[cfg(gothenburgbitfactory_taskchampion_verif)]
+        crate::server::verif::failpoint("local.add.after_check")?;
+
         // invent a new ID for this version
         let version_id = Uuid::new_v4();
 
@@ -139,7 +142,11 @@ impl Server for LocalServer {
             parent_version_id,
             history_segment,
         })?;
+        #[cfg(gothenburgbitfactory_taskchampion_verif)]
+        crate::server::verif::failpoint("local.add.after_insert")?;
         self.set_latest_version_id(version_id)?;
+        #[cfg(gothenburgbitfactory_taskchampion_verif)]
+        crate::server::verif::failpoint("local.add.after_latest")?;
 
         Ok((AddVersionResult::Ok(version_id), SnapshotUrgency::None))
     }
